@@ -206,11 +206,38 @@ def _closest_contract(qualname, pick_closest):
 
         def ensures(result, self, dt1, dt2):
             d1, d2 = absv(sym.sub(tod(dt1), tod(self))), absv(sym.sub(tod(dt2), tod(self)))
-            first = lt(d1, d2) if pick_closest else gt(d1, d2)
-            return [("chosen_by_distance_to_the_microsecond", eq(tod(result), If(first, tod(dt1), tod(dt2))))]
+            best = sym.minv(d1, d2) if pick_closest else sym.maxv(d1, d2)
+            # (the statement does not say which of two equally distant candidates wins)
+            return [("is_one_of_the_candidates", Or(eq(tod(result), tod(dt1)), eq(tod(result), tod(dt2)))),
+                    ("chosen_by_distance_to_the_microsecond", eq(absv(sym.sub(tod(result), tod(self))), best))]
 
     return pick
 
 
 _closest_contract("pendulum.time.Time.closest", True)
 _closest_contract("pendulum.time.Time.farthest", False)
+
+
+@contract("pendulum.time.Time.__rsub__", props=["C20"])
+class time_rsub:
+    """native_time - Time (reflected): the signed difference to the microsecond, like Time - Time"""
+
+    def applies(self, other):
+        return isinstance(other, Obj) and issubclass(other.cls, _dt.time)
+
+    def args(F):
+        o, c = fresh_ptime(F)
+        p, c2 = stdlib.fresh_time(F, _dt.time, "other")
+        return dict(self=o, other=p), [c, c2]
+
+    def requires(self, other):
+        return [("naive_operand", other.tzinfo is None)]
+
+    def result(F, self, other):
+        from contracts.duration import mk_duration
+
+        o, _ = mk_duration(F, Duration, sym.sub(tod(other), tod(self)), 0, 0, hint="trsub")
+        return o
+
+    def ensures(result, self, other):
+        return [("class", result.cls is Duration), ("signed_difference_to_the_microsecond", eq(result.us, sym.sub(tod(other), tod(self))))]
